@@ -11,7 +11,7 @@ export GOFLAGS=-mod=mod GOPROXY=off
 cd "$WT/go"
 git -C "$WT" apply "$SD/patch.diff" || { echo "APPLY-FAILED"; exit 3; }
 go build -trimpath $PKGS ./$PKG/ >/dev/null 2>&1 && echo "build-with-patch: ok" || echo "build-with-patch: FAILED"
-go test -trimpath -vet=off -count=1 $PKGS 2>&1 | grep -v "no test files" | tail -8; echo "existing-tests-with-patch rc=${PIPESTATUS[0]}"
+go test -trimpath -vet=off -count=1 -timeout 90m -skip "TestFileManifestUpdate|TestFindPrefix|TestPullTableFileWriter|TestGitRemoteFactory_TwoClients|TestSignAndVerifyCommit" $PKGS 2>&1 | grep -v "no test files" | tail -8; echo "existing-tests-with-patch rc=${PIPESTATUS[0]}"
 for f in "$SD"/demo*_test.go; do cp "$f" "$PKG/zz_$(basename $f)"; done
 go test -trimpath -vet=off -count=1 -run "$RX" ./$PKG/ >/tmp/seedconf.$$ 2>&1; echo "demo-with-patch rc=$? (expect non-zero)"; tail -3 /tmp/seedconf.$$
 git -C "$WT" apply -R "$SD/patch.diff"
